@@ -192,6 +192,28 @@ where
 
 pub fn run(ctx: &Ctx) -> Report {
     let mut rep = Report::default();
+    // ---- the names under which the 14 kinds appear in messages (seeded change C06-r10): every
+    // kind prints its own name, no two kinds share one, and the text of a type-mismatch error
+    // contains the printed names of exactly the two kinds its fields hold
+    if ctx.want("c06:names") {
+        let kinds: Vec<ShapeType> = ALL_CODES.iter().filter_map(|&c| ShapeType::from(c)).collect();
+        for (a, ka) in kinds.iter().enumerate() {
+            for kb in kinds.iter().skip(a + 1) {
+                rep.eval();
+                if ka.to_string() == kb.to_string() {
+                    rep.violation("names/two-kinds-print-the-same-name", "c06:names", J::s(format!("{:?} and {:?} both print as {}", ka, kb, ka)));
+                }
+            }
+            for kb in kinds.iter() {
+                let msg = Error::MismatchShapeType { requested: *ka, actual: *kb }.to_string();
+                rep.eval();
+                rep.count("mismatch_messages_checked", 1);
+                if !msg.contains(&ka.to_string()) || !msg.contains(&kb.to_string()) {
+                    rep.violation("names/message-does-not-name-its-kinds", "c06:names", J::s(format!("({:?},{:?}): {}", ka, kb, msg)));
+                }
+            }
+        }
+    }
     let files_per_type = if cfg!(miri) { 1 } else { ctx.pick(3, 12) };
     let dir = format!("{}/files", ctx.out);
     if !cfg!(miri) {
